@@ -379,7 +379,7 @@ func printManifest() {
 			Evidence:   "/verif/evidence/" + p.ID + ".json",
 			Replay:     "./bin/gsa -replay {path}",
 			Engine:     "gsa",
-			Level:      level{"other", p.LevelText, "DESIGN.md §6 " + p.ID},
+			Level:      level{"other", levelTextOf(p), "DESIGN.md §6 " + p.ID},
 			Note:       p.LevelNote,
 			Technique:  p.Technique,
 		})
